@@ -1507,11 +1507,15 @@ class StateEngine(object):
             as attempting to apply InputPath or OutputPath on a null JSON
             payload. A States.Runtime error is not retriable and will always
             cause the execution to fail. Similarly, with a Task.Terminated
-            error we want terminated Tasks to end immediately.
+            error we want terminated Tasks to end immediately. An execution
+            that has exceeded the execution history quota must end too, if
+            a Retrier or Catcher kept it going its history would carry on
+            growing past the limit without bound.
             A retry or catch on States.ALL will not catch these errors.
             """
             unrecoverable = (error_type == "States.Runtime" or
                              error_type == "States.ExecutionTimeout" or
+                             error_type == "States.ExecutionHistoryLimitExceeded" or
                              error_type == "Task.Terminated")
 
             retry = state.get("Retry")
